@@ -71,6 +71,46 @@ type TermCtx struct {
 	True   *Term
 	False  *Term
 	vars   []*Term
+	// byte domains: values a byte variable may take (asserted by the draw that created it)
+	domain map[*Term]*[4]uint64
+}
+
+// SetDomain records the value set of an 8-bit variable. The caller also asserts it on the path.
+func (c *TermCtx) SetDomain(v *Term, dom *[4]uint64) {
+	if c.domain == nil {
+		c.domain = map[*Term]*[4]uint64{}
+	}
+	if old, ok := c.domain[v]; ok && *old != *dom {
+		panic("engine: conflicting byte domains for " + v.name)
+	}
+	c.domain[v] = dom
+}
+
+func domHas(d *[4]uint64, v uint64) bool { return v < 256 && d[v>>6]&(1<<(v&63)) != 0 }
+
+// domCmp decides a comparison "x op const" from the domain of x; returns 1 true, 0 false, -1 unknown.
+func (c *TermCtx) domCmp(x *Term, pred func(v uint64) bool) int {
+	d, ok := c.domain[x]
+	if !ok {
+		return -1
+	}
+	all, none := true, true
+	for v := uint64(0); v < 256; v++ {
+		if domHas(d, v) {
+			if pred(v) {
+				none = false
+			} else {
+				all = false
+			}
+		}
+	}
+	if all {
+		return 1
+	}
+	if none {
+		return 0
+	}
+	return -1
 }
 
 func NewTermCtx() *TermCtx {
@@ -243,11 +283,22 @@ func (c *TermCtx) Eq(a, b *Term) *Term {
 		}
 	}
 	// Eq(const, ite(g, x, y)) with constant arms folds (menus)
-	if a.IsConst() && b.op == OpIte {
+	if a.IsConst() && (b.op == OpIte || b.op == OpVar) {
 		a, b = b, a
+	}
+	if b.IsConst() && a.op == OpVar && a.sort == 8 && c.domain != nil {
+		if d, ok := c.domain[a]; ok && !domHas(d, b.val) {
+			return c.False
+		}
 	}
 	if b.IsConst() && a.op == OpIte && iteLeavesConst(a, 64) {
 		return c.Ite(a.a, c.Eq(a.b, b), c.Eq(a.c, b))
+	}
+	if b.IsConst() && a.op == OpIte {
+		// push the comparison into the arms when that decides at least one of them
+		if r := c.pushCmp(a, func(x *Term) *Term { return c.Eq(x, b) }, 6); r != nil {
+			return r
+		}
 	}
 	// zext(x) == const  -> x == const' (or false)
 	if b.IsConst() && (a.op == OpZExt) {
@@ -516,6 +567,48 @@ func (c *TermCtx) cmp(op Op, a, b *Term) *Term {
 	if a == b {
 		return c.Bool(op == OpUle || op == OpSle)
 	}
+	if c.domain != nil {
+		if b.IsConst() && a.op == OpVar && a.sort == 8 {
+			bv := b.val
+			var r int
+			switch op {
+			case OpUlt:
+				r = c.domCmp(a, func(v uint64) bool { return v < bv })
+			case OpUle:
+				r = c.domCmp(a, func(v uint64) bool { return v <= bv })
+			default:
+				r = -1
+			}
+			if r >= 0 {
+				return c.Bool(r == 1)
+			}
+		}
+		if a.IsConst() && b.op == OpVar && b.sort == 8 {
+			av := a.val
+			var r int
+			switch op {
+			case OpUlt:
+				r = c.domCmp(b, func(v uint64) bool { return av < v })
+			case OpUle:
+				r = c.domCmp(b, func(v uint64) bool { return av <= v })
+			default:
+				r = -1
+			}
+			if r >= 0 {
+				return c.Bool(r == 1)
+			}
+		}
+	}
+	if b.IsConst() && a.op == OpIte && !iteLeavesConst(a, 64) {
+		if r := c.pushCmp(a, func(x *Term) *Term { return c.cmp(op, x, b) }, 6); r != nil {
+			return r
+		}
+	}
+	if a.IsConst() && b.op == OpIte && !iteLeavesConst(b, 64) {
+		if r := c.pushCmp(b, func(x *Term) *Term { return c.cmp(op, a, x) }, 6); r != nil {
+			return r
+		}
+	}
 	// comparisons against ite-of-constants fold
 	if b.IsConst() && a.op == OpIte && iteLeavesConst(a, 64) {
 		return c.Ite(a.a, c.cmp(op, a.b, b), c.cmp(op, a.c, b))
@@ -756,3 +849,27 @@ func (c *TermCtx) Eval(t *Term, m map[string]uint64, memo map[*Term]uint64) uint
 }
 
 var _ = bits.Len
+
+// pushCmp rewrites f(ite(g,x,y)) to ite(g, f(x), f(y)) when every leaf comparison folds to a constant
+// (depth-limited); returns nil when that is not the case.
+func (c *TermCtx) pushCmp(t *Term, f func(*Term) *Term, depth int) *Term {
+	if t.op != OpIte {
+		r := f(t)
+		if r.IsConst() {
+			return r
+		}
+		return nil
+	}
+	if depth == 0 {
+		return nil
+	}
+	x := c.pushCmp(t.b, f, depth-1)
+	if x == nil {
+		return nil
+	}
+	y := c.pushCmp(t.c, f, depth-1)
+	if y == nil {
+		return nil
+	}
+	return c.Ite(t.a, x, y)
+}
